@@ -176,7 +176,40 @@ func rsSynthetic(tr *tracer.T, sizes []int, th int, rng *rand.Rand) {
 		}
 	}
 	tr.Emit(map[string]any{"ev": "stream", "pairs": pairs, "li": li, "maxinmem": maxInMem, "sizes": sizes, "unit": unit})
+	stopFlood := make(chan struct{})
+	var fwg sync.WaitGroup
+	if maxInMem != 0 && rng.Intn(3) == 0 {
+		// the recovery shard is BUSY while the stream is loaded: its in-memory log is kept full (no-op commands with a
+		// large table field, proposed by the driver), so that proposals of the restore are turned away with "system is
+		// too busy" and have to be repeated
+		fwg.Add(1)
+		go func() {
+			defer fwg.Done()
+			filler, _ := (&regattapb.Command{Table: make([]byte, int(maxInMem/3)+1), Type: regattapb.Command_DUMMY}).MarshalVT()
+			for {
+				select {
+				case <-stopFlood:
+					return
+				default:
+				}
+				tabs, err := e.mgr.GetTables()
+				if err != nil {
+					continue
+				}
+				for _, t := range tabs {
+					if t.Name == "t" && t.RecoverID != 0 {
+						for i := 0; i < 8; i++ {
+							_, _ = e.host.Propose(e.host.GetNoOPSession(t.RecoverID), filler, 2*time.Second)
+						}
+					}
+				}
+				time.Sleep(200 * time.Microsecond)
+			}
+		}()
+	}
 	err := e.mgr.Restore("t", rr)
+	close(stopFlood)
+	fwg.Wait()
 	e.readBack(tr, "t", err)
 }
 
